@@ -468,31 +468,38 @@ func (e *exec) Do(line string) string {
 	}
 	switch f[0] {
 	case "keys":
-		var cfg []keyTmpl
-		for _, ent := range f[1:] {
-			raw, view, ok := split2(ent)
-			if !ok {
-				return "bad-op"
-			}
-			tmpl, ok := unhexField(raw)
-			if !ok {
-				return "bad-op"
-			}
-			kt := keyTmpl{tmpl: tmpl}
-			vf := strings.Split(view, ":")
-			if vf[0] == "K" && len(vf) == 5 {
-				if t, err := strconv.ParseInt(vf[4], 10, 64); err == nil {
-					kt.exp, kt.has = t, true
-				}
-			}
-			if v := entryView(tmpl, kt.exp); v != view {
-				return "VIEW-MISMATCH key " + v
-			}
-			cfg = append(cfg, kt)
+		cfg, bad := parseEntries(f[1:])
+		if bad != "" {
+			return bad
 		}
 		e.cfg = cfg
 		e.w.cfgKeysSet = true
 		return showKeys(e.setOption(api.CfgAPIKeys, e.render()))
+	case "overlap":
+		// overlap <entries A> // <entries B>: two configuration changes whose key imports overlap
+		sep := -1
+		for i, x := range f {
+			if x == "//" {
+				sep = i
+			}
+		}
+		if sep < 0 {
+			return "bad-op"
+		}
+		cfgA, bad := parseEntries(f[1:sep])
+		if bad != "" {
+			return bad
+		}
+		cfgB, bad := parseEntries(f[sep+1:])
+		if bad != "" {
+			return bad
+		}
+		for _, k := range append(append([]keyTmpl{}, cfgA...), cfgB...) {
+			if k.has || strings.Contains(k.tmpl, "expires=1") || strings.Contains(k.tmpl, "expires=2") {
+				return "bad-op" // no expiring keys here: an expired key would add the cleanup's own import
+			}
+		}
+		return e.overlap(cfgA, cfgB)
 	case "cfgchange":
 		if len(f) != 1 {
 			return "bad-op"
@@ -598,6 +605,115 @@ func (e *exec) Do(line string) string {
 		return e.rawTCP(b)
 	}
 	return "bad-op"
+}
+
+func parseEntries(ents []string) ([]keyTmpl, string) {
+	var cfg []keyTmpl
+	for _, ent := range ents {
+		raw, view, ok := split2(ent)
+		if !ok {
+			return nil, "bad-op"
+		}
+		tmpl, ok := unhexField(raw)
+		if !ok {
+			return nil, "bad-op"
+		}
+		kt := keyTmpl{tmpl: tmpl}
+		vf := strings.Split(view, ":")
+		if vf[0] == "K" && len(vf) == 5 {
+			if t, err := strconv.ParseInt(vf[4], 10, 64); err == nil {
+				kt.exp, kt.has = t, true
+			}
+		}
+		if v := entryView(tmpl, kt.exp); v != view {
+			return nil, "VIEW-MISMATCH key " + v
+		}
+		cfg = append(cfg, kt)
+	}
+	return cfg, ""
+}
+
+// overlapWindow is how long the second import gets to overtake the first one, which is parked right
+// after it has read the configuration. On code that reads the configuration inside the critical
+// section of the key map the second import cannot run at all during that time (it waits for the
+// lock held by the parked one), so the window always elapses in full.
+const overlapWindow = 400 * time.Millisecond
+
+// overlap: the option is set to A; the import started by that change is parked at the instant it has
+// read the option (value A); the option is set to B and the import started by that change may run;
+// then the first import is released. After both imports have finished (quiescence) the key map must
+// be the import of B, the configured value, whatever the order in which the imports installed.
+func (e *exec) overlap(cfgA, cfgB []keyTmpl) string {
+	w := e.w
+	if w.wedged.Load() {
+		return "HANG-BEFORE the server was wedged by an earlier operation"
+	}
+	w.drain()
+	parked := make(chan struct{}, 1)
+	release := make(chan struct{})
+	var armed atomic.Bool
+	armed.Store(true)
+	restore := api.VerifWrapConfiguredAPIKeys(func(get func() []string) func() []string {
+		return func() []string {
+			v := get()
+			if armed.CompareAndSwap(true, false) {
+				parked <- struct{}{}
+				select {
+				case <-release:
+				case <-time.After(waitTimeout):
+				}
+			}
+			return v
+		}
+	})
+	set := func(cfg []keyTmpl) bool {
+		e.cfg = cfg
+		errc := make(chan error, 1)
+		go func() { errc <- config.SetConfigOption(api.CfgAPIKeys, e.render()) }()
+		select {
+		case err := <-errc:
+			return err == nil
+		case <-time.After(waitTimeout):
+			return false
+		}
+	}
+	fail := func(what string) string {
+		armed.Store(false)
+		close(release)
+		w.wedged.Store(true)
+		return "HANG " + what
+	}
+	w.cfgKeysSet = true
+	if !set(cfgA) {
+		return fail("config change did not complete")
+	}
+	select {
+	case <-parked:
+	case <-time.After(waitTimeout):
+		return fail("the key import of a config change did not start")
+	}
+	if !set(cfgB) {
+		return fail("config change did not complete while a key import was in progress")
+	}
+	done := 0
+	select {
+	case <-w.done:
+		done++ // the second import ran to completion while the first one was parked
+		e.r.Count("overlap:second-import-overtook")
+	case <-time.After(overlapWindow):
+		e.r.Count("overlap:second-import-waited")
+	}
+	close(release)
+	for done < 2 {
+		if _, ok := w.waitDone(); !ok {
+			w.wedged.Store(true)
+			return "HANG overlapping key imports did not complete"
+		}
+		done++
+	}
+	restore()
+	n, _ := api.VerifCounts()
+	return fmt.Sprintf("keys %d 0 %d", n, n)
 }
 
 func (e *exec) cookieValue(id int) string {
